@@ -123,6 +123,7 @@ class Interp:
         self.depth = 0
         self.summarised = 0
         self.trips = []         # (guard, trip term) of every counted DO loop
+        self.int_divs = []      # (numerator, denominator) of every integer division evaluated
         self._collect()
 
     # ------------------------------------------------------------ program structure
@@ -1216,6 +1217,7 @@ class Interp:
             if op == "*":
                 return x * y
             if x.sort() == I:
+                self.int_divs.append((x, y))
                 return tdiv(x, y)
             return x / y
         rel = {"==": "==", ".EQ.": "==", "/=": "/=", ".NE.": "/=", "<": "<", ".LT.": "<",
